@@ -102,9 +102,12 @@ def dumpType (t : DType) : String :=
 
 def dumpInst (s : Schema) (e : Entity) : Option String :=
   if e.abstract then none else
-  match instanceAttrs s e.name with
-  | none => some s!"INST {e.name} unmodelled"
-  | some l => some (s!"INST {e.name} desc={e.name} :" ++ String.join (l.map (fun a => s!" {a.owner}.{a.name}/{dkind a.kind}")))
+  match instanceFlags s e.name, instanceAttrs s e.name with
+  | some l, some l0 =>
+    if l.map (·.1) != l0 then some s!"INST {e.name} flag-model-disagrees-with-order-model" else
+    some (s!"INST {e.name} desc={e.name} :" ++ String.join (l.map (fun (a, d, r) =>
+      s!" {a.owner}.{a.name}/{dkind a.kind}" ++ (if d then "d" else "") ++ (if r then "r" else ""))))
+  | _, _ => some s!"INST {e.name} unmodelled"
 
 def splitDot (s : String) : Option Ident × Ident :=
   match s.splitOn "." with
